@@ -25,15 +25,46 @@ def run(tier, seed):
         out.min_nontrivial = 20
         out.assumptions = ["record bodies look like protobuf messages (non-zero first byte); a zero length terminates a stream",
                            "Miri lane (thorough) interprets the same reader on small streams; see coverage.miri"]
-        if tier == "thorough":
-            out.extra["miri"] = miri_lane(seed)
+        out.extra["miri"] = miri_lane(seed, 4 if tier == "quick" else 16, 2 if tier == "quick" else 8, out)
         return out.finish()
     finally:
         shutil.rmtree(wd, ignore_errors=True)
 
 
-def miri_lane(seed):
-    return {"status": "not-run"}
+def miri_lane(seed, n_seeds, n_streams, out):
+    """interpret the repository's codec (included by path from /repo) under Miri on small seeded streams"""
+    import os
+    import subprocess
+    import time
+    crate = os.path.join(common.VERIF, "miri")
+    env = dict(os.environ)
+    env.update({"CARGO_NET_OFFLINE": "true", "CARGO_TARGET_DIR": os.path.join(common.CACHE, "miri-target")})
+    t0 = time.time()
+    b = subprocess.run(["cargo", "+nightly", "miri", "run", "--offline", "--manifest-path", os.path.join(crate, "Cargo.toml"), "--", "0", "0"],
+                       env=env, stdout=subprocess.PIPE, stderr=subprocess.STDOUT, text=True, timeout=900)
+    if "MIRI-OK" not in b.stdout:
+        return {"status": "inconclusive", "why": "miri lane did not build/run: " + b.stdout[-400:]}
+    procs = [subprocess.Popen(["cargo", "+nightly", "miri", "run", "--offline", "--manifest-path", os.path.join(crate, "Cargo.toml"), "--",
+                               str(seed * 1000 + i + 1), str(n_streams)], env=env, stdout=subprocess.PIPE, stderr=subprocess.STDOUT, text=True)
+             for i in range(n_seeds)]
+    cases = 0
+    ok = 0
+    for i, p in enumerate(procs):
+        try:
+            o, _ = p.communicate(timeout=1500)
+        except subprocess.TimeoutExpired:
+            p.kill()
+            continue
+        if "MIRI-OK" in o:
+            ok += 1
+            cases += int(o.split("cases=")[-1].split()[0])
+            out.shape("miri/seed-class%d" % (i % 4))
+        elif "MISMATCH" in o:
+            out.violation("miri/decode-mismatch", {"output": o[-600:]})
+        else:
+            out.violation("miri/undefined-behaviour-or-panic", {"output": o[-1500:]})
+    out.evaluations += cases
+    return {"status": "ran", "processes_ok": ok, "of": n_seeds, "cases_interpreted": cases, "wall_s": round(time.time() - t0, 1)}
 
 
 def replay(path):
